@@ -100,7 +100,7 @@ def serverTimeout (m : Metrics) (cfgTimeout maxtimeout : Nat) (nowSec : Int) : N
 
 /-! ## binary32 arithmetic (exact) -/
 
-/-- a positive binary32 value `m · 2^e` with `2²³ ≤ m < 2²⁴` -/
+/-- a positive binary32 value `m · 2^e` with `2²³ ≤ m ≤ 2²⁴` -/
 structure F32 where
   m : Nat
   e : Int
@@ -126,20 +126,20 @@ def floorLog2Ratio (n d : Nat) : Int :=
     ranges used here) -/
 def roundF32 (n d : Nat) : F32 :=
   let e : Int := floorLog2Ratio n d - 23
-  let num := if e < 0 then n * pow2 (-e).toNat else n
-  let den := if e < 0 then d else d * pow2 e.toNat
+  let num := n * pow2 (-e).toNat      -- (`toNat` of a negative number is 0: only one of the two scalings is active)
+  let den := d * pow2 e.toNat
   let q := num / den
   let r := num % den
   let q' := if 2 * r > den ∨ (2 * r = den ∧ q % 2 = 1) then q + 1 else q
-  if q' = pow2 24 then ⟨pow2 23, e + 1⟩ else ⟨q', e⟩
+  ⟨q', e⟩      -- (a carry to 2²⁴ is left as it is: same value, and nothing here depends on a normalised mantissa)
 
 /-- binary32 product, correctly rounded -/
 def F32.mul (a b : F32) : F32 :=
   let e := a.e + b.e
-  if e ≥ 0 then roundF32 (a.m * b.m * pow2 e.toNat) 1 else roundF32 (a.m * b.m) (pow2 (-e).toNat)
+  roundF32 (a.m * b.m * pow2 e.toNat) (pow2 (-e).toNat)
 
 /-- conversion to an unsigned integer (truncation) -/
-def F32.trunc (a : F32) : Nat := if a.e ≥ 0 then a.m * pow2 a.e.toNat else a.m / pow2 (-a.e).toNat
+def F32.trunc (a : F32) : Nat := a.m * pow2 a.e.toNat / pow2 (-a.e).toNat
 
 /-- `(size_t)((float)timeplus * (((float)r / USHRT_MAX) * 0.5f))` -/
 def jitterExact (timeplus r : Nat) : Nat :=
